@@ -71,7 +71,7 @@ class RawX12File(object):
             (line, self.buffer) = self.buffer.split(self.seg_term, 1)
             line = line.lstrip('\n\r')
             if line == '':
-                break
+                continue
             yield(line)
 
     def get_term(self):
